@@ -26,6 +26,10 @@ TRUSTED = [
 ASSUMPTIONS = [
     "classes implement __eq__/__hash__ consistently and to_bytes/from_bytes round-trips (documented user contract)",
     "C15_empty_cache / C15_oracle_once_per_label quantify over honest callers (set_empty passes the true value)",
+    "scope of the membership clause ('False for everything else'): keys that are classes of the searcher's class type "
+    "or ints. A key of any other type ('x', None, 0.0, a class of another type) makes `in` raise ValueError('Invalid key') "
+    "(class_db.py) - the oracle REQUIRES that exception (a foreign key that is accepted is reported); `True in db` is an "
+    "int lookup (label 1). Triage: findings/triage/C15/verdict.md (the clause is read for classes and labels; no finding)",
 ]
 
 ERR = {"KeyError": 1, "IndexError": 2, "TypeError": 3, "ValueError": 4}
